@@ -1,20 +1,16 @@
 SPECIFICATION Spec
 CONSTANTS
-  PART = "cache"
+  PART = "call"
   CELLS <- CELLS_q
   GENS <- GENS_q
   ROTS <- ROTS_id
-  MaxDepth = 6
+  MaxDepth = 0
   FORGET = {}
-  NOCOPY = {"B"}
+  NOCOPY = {}
   OBJ = "grain"
   ALIASARG = FALSE
   UNWRITTEN = {}
   EmitMode = 0
-INVARIANT Coherent
-INVARIANT ReadFresh
-INVARIANT DepClosed
-INVARIANT CacheType
-INVARIANT UbiOwn
-VIEW View
+INVARIANT CallDefined
+INVARIANT EmitCall
 CHECK_DEADLOCK FALSE
